@@ -16,6 +16,9 @@ def templates(tier, seed):
     ts += [Template(tid, tmpl.pick(fn, ["channel", "schema_unchanged", "config_unchanged", "subsample/channel"]), args)
            for tid, fn, args in tmpl_pl.standard_cases(tier) + tmpl_pl.subsample_cases(tier)[-3:]]
     ts += [Template(tid, tmpl.pick(fn, LABELS), args, max_paths=20000) for tid, fn, args in tmpl_pl.fault_cases(tier)]
+    # a check with one boolean output next to a row-level check: both kinds of failure case end up in one lazy report
+    ts += [Template(tid, tmpl.pick(fn, ["channel", "lazy/channel", "schema_unchanged", "config_unchanged"]), args)
+           for tid, fn, args in tmpl_pl.lazy_cases(tier) if "scalar_check" in tid]
     N = 2
     for which in tmpl.UNUSUAL:
         ts.append(Template(f"U/{which}/N={N}", tmpl.pick(tmpl.unusual_case, LABELS + ["input_unchanged"]), (which, N)))
